@@ -241,6 +241,7 @@ def run_harness(root, cases_path, out_path, timeout, per_case_timeout=60, binary
     env = dict(os.environ, GOMEMLIMIT="6GiB", GOTRACEBACK="single", REFMT_CLI=os.path.join(root, "build", "refmt-cli"),
                GORACE="halt_on_error=1 exitcode=66")
     t_end = time.time() + timeout
+    hangs = 0
     while pos < len(lines):
         chunk = lines[pos:]
         tmp_in = out_path + ".in"
@@ -248,15 +249,30 @@ def run_harness(root, cases_path, out_path, timeout, per_case_timeout=60, binary
             f.write("\n".join(chunk) + "\n")
         status = "ok"
         with open(tmp_in) as fin, open(out_path + ".part", "w") as fout:
-            try:
-                p = subprocess.run(["bash", "-c", "ulimit -v 12000000; exec %s run" % hbin], stdin=fin, stdout=fout,
-                                   stderr=subprocess.PIPE, timeout=max(10, t_end - time.time()), env=env)
+            # watchdog: the harness answers every operation on its own line (flushed); no new output for
+            # `per_case_timeout` seconds means the current operation hangs
+            p = subprocess.Popen(["bash", "-c", "ulimit -v 12000000; exec %s run" % hbin], stdin=fin, stdout=fout,
+                                 stderr=subprocess.DEVNULL, env=env)
+            last_size, last_change = -1, time.time()
+            while True:
+                try:
+                    p.wait(timeout=1.0)
+                    break
+                except subprocess.TimeoutExpired:
+                    sz = os.path.getsize(out_path + ".part")
+                    now = time.time()
+                    if sz != last_size:
+                        last_size, last_change = sz, now
+                    elif now - last_change > per_case_timeout or now > t_end + per_case_timeout:
+                        p.kill()
+                        p.wait()
+                        status = "HANG"
+                        break
+            if status != "HANG":
                 if p.returncode == 66:
                     status = "RACE-DETECTED"   # the Go race detector halted the process (GORACE exitcode=66)
                 elif p.returncode != 0:
                     status = "CRASH"
-            except subprocess.TimeoutExpired:
-                status = "HANG"
         got = open(out_path + ".part").read().splitlines()
         n = 0
         for l in got:
@@ -271,7 +287,8 @@ def run_harness(root, cases_path, out_path, timeout, per_case_timeout=60, binary
             cid = lines[pos].split(" ", 1)[0]
             results[cid] = "%s I=%s" % (cid, status if status != "ok" else "CRASH")
             pos += 1
-            if status == "HANG" and time.time() > t_end:
+            hangs = hangs + 1 if status == "HANG" else hangs
+            if status == "HANG" and (time.time() > t_end or hangs >= 3):
                 for l in lines[pos:]:
                     c = l.split(" ", 1)[0]
                     results[c] = "%s I=NOTRUN" % c
@@ -287,7 +304,7 @@ def run_harness(root, cases_path, out_path, timeout, per_case_timeout=60, binary
 def gen_cases(root, stream, tier, seed, path):
     with open(path, "w") as f:
         p = subprocess.run([os.path.join(root, "build", "harness"), "gen", stream, tier, str(seed)], stdout=f,
-                           stderr=subprocess.PIPE, timeout=3000)
+                           stderr=subprocess.PIPE, timeout=(900 if tier == "quick" else 6000))
     if p.returncode != 0:
         raise RuntimeError("generator failed for stream %s: %s" % (stream, p.stderr.decode()[-2000:]))
 
@@ -394,7 +411,11 @@ def run_property(root, pid, tier, seed, replay, no_proofs=False):
                     continue
             else:
                 gen_path = cases_path + ".gen"
-                gen_cases(root, sc["gen"], tier, seed, gen_path)
+                try:
+                    gen_cases(root, sc["gen"], tier, seed, gen_path)
+                except Exception as e:   # the generators drive the real code for pruning: a crash or hang there is a finding too
+                    problems.append(("generator:" + sc["name"], str(e)[-1500:]))
+                    continue
                 cl = corpus_lines(root, pid, sc["name"])
                 with open(cases_path, "w") as f:
                     n = 0
@@ -405,7 +426,11 @@ def run_property(root, pid, tier, seed, replay, no_proofs=False):
                         n += 1
                         f.write("%d %s" % (n, l.split(" ", 1)[1]))
                 os.remove(gen_path)
-            st = compare_stream(root, pid, sc, cases_path, work, tier)
+            try:
+                st = compare_stream(root, pid, sc, cases_path, work, tier)
+            except Exception as e:
+                problems.append(("stream:" + sc["name"], str(e)[-1500:]))
+                continue
             total_eval += st["evaluations"]
             nontrivial += len(st["nontrivial"])
             for c in st["concrete"]:
